@@ -332,6 +332,8 @@ class World(object):
                     allowed = r.get('actions')
                     if allowed:
                         acts = [a for a in acts if a[0] in allowed]
+                    if r.get('not_args'):
+                        acts = [a for a in acts if a[1] not in r['not_args']]
                     if acts:
                         a = acts[rng.randrange(len(acts))]
                         return {'op': self.op, 'site': site, 'nth': nth, 'action': a[0], 'arg': a[1], 'seeded': True}
